@@ -45,22 +45,10 @@ seconds = 30 if tier == "quick" else 300
 resf = os.path.join(work, "result.json")
 try:
     p = subprocess.run([binp, "--seed", seed, "--seconds", str(seconds), "--out", resf], cwd=work, env=env,
-                       stdout=subprocess.PIPE, stderr=subprocess.STDOUT, text=True, timeout=seconds + 900)
+                       stdout=subprocess.PIPE, stderr=subprocess.STDOUT, text=True, timeout=seconds + 600)
     out, rc = p.stdout, p.returncode
 except subprocess.TimeoutExpired as e:
     out, rc = (e.stdout or b"").decode(errors="replace") if isinstance(e.stdout, bytes) else (e.stdout or ""), 124
-res = None
-if os.path.exists(resf):
-    res = json.load(open(resf))
-if res is None:
-    # the process died: a fatal runtime error (e.g. concurrent map read and map write) or an escaped panic
-    tail = out[-1500:]
-    m = re.search(r"(fatal error: [^\n]+|panic: [^\n]+)", out)
-    print(json.dumps({"ok": False, "found": True, "evaluations": 0,
-                      "what": "workload process died (exit %d): %s" % (rc, m.group(1) if m else tail[-300:]),
-                      "replay_lines": ["# c29race --seed %s" % seed] + [l for l in tail.split("\n") if "pilosa" in l][:12]}))
-    sys.exit(0)
-
 # ---- race reports
 def frames(block):
     """pilosa functions of one stack, top first"""
@@ -99,6 +87,18 @@ for fn in sorted(os.listdir(work)):
         races.setdefault(key, 0)
         races[key] += 1
 
+res = None
+if os.path.exists(resf):
+    res = json.load(open(resf))
+if res is None:
+    # the process died or hung: a fatal runtime error (e.g. concurrent map read and map write), an
+    # escaped panic, or a Close that never returns; the race log written so far is still reported
+    tail = out[-1500:]
+    m = re.search(r"(fatal error: [^\n]+|panic: [^\n]+)", out)
+    why = m.group(1) if m else ("timeout" if rc == 124 else tail[-300:])
+    res = {"ok": False, "found": True, "evaluations": 0, "distinct_nontrivial": 0, "counters": {},
+           "what": "workload process died or hung (exit %d): %s" % (rc, why),
+           "replay_lines": ["# c29race --seed %s" % seed] + [l for l in tail.split("\n") if "pilosa" in l][:12]}
 known = {}
 kf = os.path.join(root, "known_findings.jsonl")
 if os.path.exists(kf):
@@ -116,8 +116,10 @@ res["counters"]["build_s"] = int(build_s)
 if new:
     res["ok"] = False
     res["found"] = True
-    k0 = sorted(new)[0]
-    res["what"] = "DATA RACE under -race (%d site pairs, %d new): %s" % (len(races), len(new), "; ".join(sorted(new))[:500])
+    prev = ""
+    if "died or hung" in res.get("what", "") or res.get("deadlock"):
+        prev = " [" + res.get("what", "")[:200] + "]"
+    res["what"] = "DATA RACE under -race (%d site pairs, %d new): %s" % (len(races), len(new), "; ".join(sorted(new))[:500]) + prev
     res["replay_lines"] = ["# go run -race harness/c29race --seed %s (schedule dependent)" % seed] + ["# " + k for k in sorted(new)][:20]
 elif races:
     res["what"] += "; known races seen: " + "; ".join(sorted(races))[:300]
